@@ -220,12 +220,20 @@ def rule_unit_pairs(chk, prog):
   f = prog.func(f'{RA}.datetime_to_time')
   ev = sym.Evaluator(prog, sym.Options(opaque={f'{RA}.datetime64_to_datetime'}))
   v, ctx, env = ev.run(f)
-  days = env.get('days')
-  diff = env.get('difference')
   A = alg.Algebra(ev)
-  ok = days is not None and diff is not None and alg.equal(A.conv(days), A.conv(Term('attr', diff, 'days')) + A.conv(Term('attr', diff, 'seconds')) / 86400)
-  chk.check(ok, rule, f'{RA}.datetime_to_time: elapsed days = timedelta.days + timedelta.seconds / 86400', sym.show(days)[:160] if days is not None else 'missing', (f.file, f.lineno))
-  okq = v.k == 'call' and util.callee_name(v) == 'nondimensionalize' and pint_unit_of(match.plain_factors(util.call_args(v)[-1])[-1]) == sym.const('day')
+  okq = v.k == 'call' and util.callee_name(v) == 'nondimensionalize'
+  fs = match.plain_factors(util.call_args(v)[-1]) if okq else []
+  unit_f = [x for x in fs if pint_unit_of(x) == sym.const('day')]
+  count_f = [x for x in fs if pint_unit_of(x) != sym.const('day')]
+  okq = okq and len(unit_f) == 1 and len(count_f) == 1
+  days = count_f[0] if okq else None
+  diffs = {t.a[0] for t in sym.walk(days) if t.k == 'attr' and t.a[1] in ('days', 'seconds')} if days is not None else set()
+  ok = days is not None and len(diffs) == 1
+  if ok:
+    diff = list(diffs)[0]
+    ok = alg.equal(A.conv(days), A.conv(Term('attr', diff, 'days')) + A.conv(Term('attr', diff, 'seconds')) / 86400)
+    ok = ok and diff.k == 'bin' and diff.a[0] == '-'
+  chk.check(ok, rule, f'{RA}.datetime_to_time: elapsed days = timedelta.days + timedelta.seconds / 86400 of (when − reference)', sym.show(days)[:160] if days is not None else 'missing', (f.file, f.lineno))
   chk.check(okq, rule, f'{RA}.datetime_to_time: the day count is attached to pint `day` and non-dimensionalised with the given specs', sym.show(v, maxdepth=3)[:160], (f.file, f.lineno))
   g = prog.func(f'{RA}.datetime64_to_datetime')
   v, _, _ = sym.Evaluator(prog).run(g)
